@@ -446,22 +446,40 @@ func c20R2(c *Ctx) {
 		}
 		c.Require("C20.R2", "the virtual type written is the selected datapath", fn, s.call, exprString(sw.Tag)+" == "+exprString(arg), nil)
 	}
-	// without eBPF support the virtual type key is removed (plugin defaults to veth)
-	okDel := false
+	// without eBPF support the virtual type key is removed (plugin defaults to veth): the Delete is
+	// under ¬ebpfSupport, and whenever ¬ebpfSupport holds in the block that handles the terway
+	// plugin the Delete is reached
+	var del *ast.CallExpr
 	ast.Inspect(fn.Decl.Body, func(nd ast.Node) bool {
-		if is, ok := nd.(*ast.IfStmt); ok && exprString(is.Cond) == "!ebpfSupport" {
-			ast.Inspect(is.Body, func(k ast.Node) bool {
-				if call, ok := k.(*ast.CallExpr); ok && strings.HasSuffix(calleeName(info, call), "Delete") && len(call.Args) == 1 {
-					if tv := info.Types[call.Args[0]]; tv.Value != nil && constant.StringVal(tv.Value) == "eniip_virtual_type" {
-						okDel = true
-					}
-				}
-				return true
-			})
+		if call, ok := nd.(*ast.CallExpr); ok && strings.HasSuffix(calleeName(info, call), "Delete") && len(call.Args) == 1 {
+			if tv := info.Types[call.Args[0]]; tv.Value != nil && constant.StringVal(tv.Value) == "eniip_virtual_type" {
+				del = call
+			}
 		}
 		return true
 	})
-	c.Check(okDel, "C20.R2", "without eBPF support no eBPF datapath is configured", p.Pos(fn.Decl), fn.Key(), "if !ebpfSupport { plugin.Delete(\"eniip_virtual_type\") }", "not found")
+	if del == nil {
+		c.Bad("C20.R2", "without eBPF support no eBPF datapath is configured", p.Pos(fn.Decl), fn.Key(), "plugin.Delete(\"eniip_virtual_type\") under !ebpfSupport", "no Delete of the key")
+	} else {
+		c.Require("C20.R2", "the virtual type is removed only without eBPF support", fn, del, "!ebpfSupport", nil)
+		var scope *ast.BlockStmt
+		for _, nd := range pathTo(fn.Decl.Body, sw) {
+			if nd.Pos() > del.Pos() || del.End() > nd.End() {
+				continue
+			}
+			switch b := nd.(type) {
+			case *ast.BlockStmt:
+				scope = b
+			case *ast.CaseClause:
+				scope = &ast.BlockStmt{Lbrace: b.Colon, List: b.Body, Rbrace: b.End()}
+			}
+		}
+		if scope == nil {
+			c.Undec("C20.R2", "without eBPF support no eBPF datapath is configured", p.Pos(del), fn.Key(), "the Delete and the datapath switch share a block", "no common block")
+		} else {
+			c.RequireReached("C20.R2", "without eBPF support no eBPF datapath is configured", fn, scope, del, "!ebpfSupport", nil)
+		}
+	}
 	// every Set of a virtual type happens under ebpfSupport
 	for _, s := range sets {
 		if s.key == "eniip_virtual_type" || s.key == "bandwidth_mode" {
